@@ -80,6 +80,12 @@ add("C08", "vp_sig",
     "Trusted: the position model, the probe source, f64 exactness on the dyadic grid. The general regime cannot distinguish positions closer than the stated tolerance to an integer.",
     "DESIGN.md §4 C08")
 
+add("C20", "vp_sig",
+    "bounded-exhaustive enumeration + proptest against closed-form references",
+    "Hann/Rectangle window functions on every phase k/2^m (m <= 10) and random phases in [0,1] for f64 and f32 phase types (value vs sin^2(pi p), range, symmetry, end points); Window::new(n) for n in 2..=64 and {100, 1000, 4096}; Windower over every (L, bin, hop) in 0..=40 x 2..=12 x 1..=14 x two windows x three frame formats plus random larger triples: chunk count == floor((L-b)/h)+1 (0 when L < b), chunk k's first b frames == frames[k*h+i] scaled by W(i/(b-1)), size_hint() before every next() brackets the number of chunks still to come, None is sticky.",
+    "Trusted: libm sin for the reference shape; stated tolerances (1e-12 / 2e-7 / 1e-9*n / 1 LSB).",
+    "DESIGN.md §4 C20")
+
 PENDING_REASON = "check not yet built in this round (design in DESIGN.md §4); nothing is claimed for it until its check is registered"
 
 def main():
